@@ -447,4 +447,358 @@ theorem inv_run {c₀ s} (I : Inv c₀ s) (sched : List Pid) : Inv c₀ (run .fu
   | nil => exact I
   | cons p rest ih => exact ih (inv_step I p)
 
+/-! ### accounting of completed updates (every mode) -/
+
+structure Acct (P₀ : Pid → List Op) (s : State) : Prop where
+  /-- what `p` has completed on cell `k`, followed by what it still has to do there, is its program -/
+  prog : ∀ p k, ((s.done k).filter (fun x => decide (x.1 = p))).map (·.2) ++
+      ((s.procs p).ops.filter (fun o => decide (o.key = k))) = (P₀ p).filter (fun o => decide (o.key = k))
+  /-- completions are recorded at the cell they updated -/
+  keyOk : ∀ k x, x ∈ s.done k → x.2.key = k
+
+theorem acct_init (m : Mode) (c₀ : Path → Val) (P₀ : Pid → List Op) : Acct P₀ (init m c₀ P₀) := by
+  refine ⟨?_, ?_⟩
+  · intro p k; simp [init]
+  · intro k x hx; simp [init] at hx
+
+theorem acct_same {P₀ s s'} (A : Acct P₀ s) (hd : s'.done = s.done)
+    (ho : ∀ q, (s'.procs q).ops = (s.procs q).ops) : Acct P₀ s' := by
+  refine ⟨?_, ?_⟩
+  · intro p k; rw [hd, ho]; exact A.prog p k
+  · intro k x hx; rw [hd] at hx; exact A.keyOk k x hx
+
+theorem acct_finish {P₀ s} (A : Acct P₀ s) (m : Mode) (p : Pid) (op : Op) (rest : List Op)
+    (cell : Path → Val) (h : (s.procs p).ops = op :: rest) :
+    Acct P₀ (finish m s p (s.procs p) op rest cell) := by
+  refine ⟨?_, ?_⟩
+  · intro q k
+    have h0 := A.prog q k
+    by_cases hk : k = op.key
+    · subst hk
+      by_cases hq : q = p
+      · subst hq
+        rw [h] at h0
+        simp only [finish, upd_same, startProc_ops]
+        simp only [List.filter_append, List.map_append]
+        simpa using h0
+      · have hq' : ¬ p = q := fun e => hq e.symm
+        simp only [finish, upd_same, upd_ne _ _ hq]
+        simp only [List.filter_append, List.map_append]
+        simpa [hq'] using h0
+    · by_cases hq : q = p
+      · subst hq
+        rw [h] at h0
+        have hk' : ¬ op.key = k := fun e => hk e.symm
+        simp only [finish, upd_ne _ _ hk, upd_same, startProc_ops]
+        simpa [hk'] using h0
+      · simp only [finish, upd_ne _ _ hk, upd_ne _ _ hq]
+        exact h0
+  · intro k x hx
+    by_cases hk : k = op.key
+    · subst hk
+      simp only [finish, upd_same, List.mem_append, List.mem_singleton] at hx
+      rcases hx with hx | hx
+      · exact A.keyOk _ x hx
+      · subst hx; rfl
+    · simp only [finish, upd_ne _ _ hk] at hx
+      exact A.keyOk k x hx
+
+theorem acct_step {P₀ s} (A : Acct P₀ s) (m : Mode) (p : Pid) : Acct P₀ (step m s p) := by
+  have same : ∀ (pr' : Proc), pr'.ops = (s.procs p).ops → ∀ q, (upd s.procs p pr' q).ops = (s.procs q).ops := by
+    intro pr' hpr q
+    by_cases hq : q = p
+    · subst hq; simpa using hpr
+    · simp [upd_ne _ _ hq]
+  cases hops : (s.procs p).ops with
+  | nil => rw [step_idle _ _ _ hops]; exact A
+  | cons op rest =>
+    cases hph : (s.procs p).ph with
+    | acq =>
+      cases hl : s.lock op.key with
+      | some q => rw [step_blocked _ _ _ q op rest hops hph hl]; exact A
+      | none =>
+        rw [step_acq _ _ _ op rest hops hph hl]
+        exact acct_same A rfl (same _ rfl)
+    | snap =>
+      cases hn : op.noEffect (s.cell op.key) with
+      | true => rw [step_snap_noop _ _ _ op rest hops hph hn]; exact acct_finish A m p op rest _ hops
+      | false => rw [step_snap _ _ _ op rest hops hph hn]; exact acct_same A rfl (same _ rfl)
+    | read => rw [step_read _ _ _ op rest hops hph]; exact acct_same A rfl (same _ rfl)
+    | write => rw [step_write _ _ _ op rest hops hph]; exact acct_finish A m p op rest _ hops
+
+theorem acct_run {P₀ s} (A : Acct P₀ s) (m : Mode) (sched : List Pid) : Acct P₀ (run m s sched) := by
+  induction sched generalizing s with
+  | nil => exact A
+  | cons p rest ih => exact ih (acct_step A m p)
+
+/-! ### steps are local: a step touches one process and one cell -/
+
+/-- the part of the state a step of `p` on cell `k` reads and writes -/
+structure Loc where
+  cell : Val
+  lock : Option Pid
+  proc : Proc
+  done : List (Pid × Op)
+  acqd : List (Pid × Op)
+
+def getLoc (s : State) (p : Pid) (k : Path) : Loc := ⟨s.cell k, s.lock k, s.procs p, s.done k, s.acqd k⟩
+
+def putLoc (s : State) (p : Pid) (k : Path) (l : Loc) : State :=
+  { cell := upd s.cell k l.cell, lock := upd s.lock k l.lock, procs := upd s.procs p l.proc,
+    done := upd s.done k l.done, acqd := upd s.acqd k l.acqd }
+
+theorem putLoc_getLoc (s : State) (p : Pid) (k : Path) : putLoc s p k (getLoc s p k) = s := by
+  simp [putLoc, getLoc, upd_self]
+
+/-- the step of `p` (current update `op`, the others `rest`) as a function of that part only -/
+def localStep (m : Mode) (p : Pid) (op : Op) (rest : List Op) (l : Loc) : Loc :=
+  let fin (c : Val) : Loc :=
+    ⟨c, if l.lock = some p then none else l.lock, startProc m rest l.proc.snap l.proc.loc, l.done ++ [(p, op)], l.acqd⟩
+  match l.proc.ph with
+  | .acq => match l.lock with
+    | some _ => l
+    | none => { l with lock := some p, acqd := l.acqd ++ [(p, op)], proc := { l.proc with ph := nextPh m op .acq } }
+  | .snap => if op.noEffect l.cell then fin l.cell
+             else { l with proc := { l.proc with snap := l.cell, ph := nextPh m op .snap } }
+  | .read => { l with proc := { l.proc with loc := l.cell, ph := .write } }
+  | .write => fin (op.write l.proc.snap l.proc.loc l.cell)
+
+theorem step_local (m : Mode) (s : State) (p : Pid) (op : Op) (rest : List Op)
+    (h : (s.procs p).ops = op :: rest) :
+    step m s p = putLoc s p op.key (localStep m p op rest (getLoc s p op.key)) := by
+  cases hph : (s.procs p).ph with
+  | acq =>
+    cases hl : s.lock op.key with
+    | some q =>
+      rw [step_blocked _ _ _ q op rest h hph hl]
+      have e : localStep m p op rest (getLoc s p op.key) = getLoc s p op.key := by
+        simp [localStep, getLoc, hph, hl]
+      rw [e]
+      exact (putLoc_getLoc s p op.key).symm
+    | none =>
+      rw [step_acq _ _ _ op rest h hph hl]
+      simp [localStep, getLoc, putLoc, hph, hl, upd_self]
+  | snap =>
+    cases hn : op.noEffect (s.cell op.key) with
+    | true =>
+      rw [step_snap_noop _ _ _ op rest h hph hn]
+      simp only [localStep, getLoc, putLoc, hph, hn, finish, upd_self, if_true]
+      by_cases hl : s.lock op.key = some p
+      · simp [hl]
+      · simp [hl, upd_self]
+    | false =>
+      rw [step_snap _ _ _ op rest h hph hn]
+      simp [localStep, getLoc, putLoc, hph, hn, upd_self]
+  | read =>
+    rw [step_read _ _ _ op rest h hph]
+    simp [localStep, getLoc, putLoc, hph, upd_self]
+  | write =>
+    rw [step_write _ _ _ op rest h hph]
+    simp only [localStep, getLoc, putLoc, hph, finish]
+    by_cases hl : s.lock op.key = some p
+    · simp [hl, upd_self]
+    · simp [hl, upd_self]
+
+theorem putLoc_comm (s : State) {p q : Pid} {k k' : Path} (l l' : Loc) (hpq : p ≠ q) (hk : k ≠ k') :
+    putLoc (putLoc s p k l) q k' l' = putLoc (putLoc s q k' l') p k l := by
+  simp only [putLoc]
+  rw [upd_comm s.cell _ _ hk, upd_comm s.lock _ _ hk, upd_comm s.procs _ _ hpq,
+      upd_comm s.done _ _ hk, upd_comm s.acqd _ _ hk]
+
+theorem getLoc_putLoc_ne (s : State) {p q : Pid} {k k' : Path} (l : Loc) (hpq : q ≠ p) (hk : k' ≠ k) :
+    getLoc (putLoc s p k l) q k' = getLoc s q k' := by
+  simp [getLoc, putLoc, upd_ne _ _ hpq, upd_ne _ _ hk]
+
+/-- steps of two processes whose current updates are on different cells commute -/
+theorem step_comm (m : Mode) (s : State) (p q : Pid) (hpq : p ≠ q)
+    (hk : ∀ op rest op' rest', (s.procs p).ops = op :: rest → (s.procs q).ops = op' :: rest' → op.key ≠ op'.key) :
+    step m (step m s p) q = step m (step m s q) p := by
+  have hqp : q ≠ p := fun e => hpq e.symm
+  cases hp : (s.procs p).ops with
+  | nil =>
+    rw [step_idle m s p hp]
+    have : ((step m s q).procs p).ops = [] := by
+      cases hq : (s.procs q).ops with
+      | nil => rw [step_idle m s q hq]; exact hp
+      | cons op' rest' =>
+        rw [step_local m s q op' rest' hq]
+        simp [putLoc, upd_ne _ _ hpq, hp]
+    rw [step_idle m _ p this]
+  | cons op rest =>
+    cases hq : (s.procs q).ops with
+    | nil =>
+      rw [step_idle m s q hq]
+      have : ((step m s p).procs q).ops = [] := by
+        rw [step_local m s p op rest hp]
+        simp [putLoc, upd_ne _ _ hqp, hq]
+      rw [step_idle m _ q this]
+    | cons op' rest' =>
+      have hkk : op.key ≠ op'.key := hk op rest op' rest' hp hq
+      have hkk' : op'.key ≠ op.key := fun e => hkk e.symm
+      have e1 : step m s p = putLoc s p op.key (localStep m p op rest (getLoc s p op.key)) := step_local m s p op rest hp
+      have e2 : step m s q = putLoc s q op'.key (localStep m q op' rest' (getLoc s q op'.key)) := step_local m s q op' rest' hq
+      have hq1 : ((step m s p).procs q).ops = op' :: rest' := by
+        rw [e1]; simp [putLoc, upd_ne _ _ hqp, hq]
+      have hp2 : ((step m s q).procs p).ops = op :: rest := by
+        rw [e2]; simp [putLoc, upd_ne _ _ hpq, hp]
+      rw [step_local m _ q op' rest' hq1, step_local m _ p op rest hp2]
+      rw [e1, e2, getLoc_putLoc_ne s _ hqp hkk', getLoc_putLoc_ne s _ hpq hkk]
+      exact putLoc_comm s _ _ hpq hkk
+
+/-! ### what a serial run leaves in a journal -/
+
+/-- an entry / item without the prunable char-level detail -/
+def Entry.core (e : Entry) : Entry := { e with fine := true }
+def Item.core (i : Item) : Item := { i with entries := i.entries.map Entry.core }
+
+theorem prune_core (j : List Item) : (prune j).map Item.core = j.map Item.core := by
+  unfold prune
+  rw [List.map_map]
+  have : (Item.core ∘ fun (p : Item × Nat) =>
+      { p.1 with entries := p.1.entries.map fun e =>
+          if newestIdx j e.file = some p.2 then e else { e with fine := false } }) = Item.core ∘ Prod.fst := by
+    funext p
+    simp only [Function.comp, Item.core, List.map_map]
+    congr 1
+    apply List.map_congr_left
+    intro e _
+    simp only [Function.comp, Entry.core]
+    split <;> rfl
+  rw [this, ← List.map_map, List.zipIdx_map_fst]
+
+/-- the items a serial run appends, each as computed when its turn came -/
+def appended : Val → List (Pid × Op) → List Item
+  | _, [] => []
+  | v, (_, op) :: rest =>
+    (match op with
+     | .ckpt _ id a edits => if op.noEffect v then [] else [mkItem v.items id a edits]
+     | _ => []) ++ appended (op.seq v) rest
+
+theorem seqRun_cons (v : Val) (x : Pid × Op) (l : List (Pid × Op)) : seqRun v (x :: l) = seqRun (x.2.seq v) l := rfl
+
+theorem seq_journal_cores (j : List Item) (ops : List (Pid × Op)) (hck : ∀ x ∈ ops, x.2.isCkpt = true) :
+    (seqRun (.journal j) ops).items.map Item.core = j.map Item.core ++ (appended (.journal j) ops).map Item.core := by
+  induction ops generalizing j with
+  | nil => simp [seqRun, appended, Val.items]
+  | cons x rest ih =>
+    obtain ⟨p, op⟩ := x
+    have hop := hck (p, op) (by simp)
+    have hrest : ∀ x ∈ rest, x.2.isCkpt = true := fun x hx => hck x (by simp [hx])
+    cases op with
+    | ckpt k id a edits =>
+      rw [seqRun_cons]
+      simp only [appended]
+      cases hn : (Op.ckpt k id a edits).noEffect (.journal j) with
+      | true =>
+        have hs : (Op.ckpt k id a edits).seq (.journal j) = .journal j := by simp [Op.seq, hn]
+        rw [hs, ih j hrest]
+        simp
+      | false =>
+        have hs : (Op.ckpt k id a edits).seq (.journal j) = .journal (prune (j ++ [mkItem j id a edits])) := by
+          simp [Op.seq, hn, Op.write, Val.items]
+        rw [hs, ih _ hrest, prune_core]
+        simp [Val.items]
+    | rw k ev => simp [Op.isCkpt] at hop
+    | noteAdd k id c n => simp [Op.isCkpt] at hop
+    | noteBatch k id es => simp [Op.isCkpt] at hop
+
+/-! ### what a serial run leaves in the notes -/
+
+theorem get_put (m : List (Nat × Nat)) (c n c' : Nat) :
+    get (put m c n) c' = if c' = c then some n else get m c' := by
+  unfold put
+  by_cases h : c' = c
+  · simp [get, h]
+  · simp only [get, h, if_false]
+    induction m with
+    | nil => simp [get]
+    | cons x m ih =>
+      obtain ⟨a, b⟩ := x
+      by_cases ha : a = c
+      · subst ha
+        simp [List.filter, get, h, ih]
+      · have : (!(a == c)) = true := by simp [ha]
+        simp only [List.filter, this, get]
+        by_cases hc : c' = a
+        · simp [hc]
+        · simp [hc, ih]
+
+/-- the note of `c` after `putAll`: the last pair for `c`, else what was there -/
+theorem get_putAll (m ws : List (Nat × Nat)) (c : Nat) :
+    get (putAll m ws) c = match ws.reverse.find? (fun p => p.1 == c) with
+      | some p => some p.2
+      | none => get m c := by
+  induction ws generalizing m with
+  | nil => simp [putAll]
+  | cons w rest ih =>
+    obtain ⟨c', n'⟩ := w
+    simp only [putAll, List.reverse_cons, List.find?_append]
+    rw [ih]
+    cases hf : rest.reverse.find? (fun p => p.1 == c) with
+    | some p => simp
+    | none =>
+      simp only [Option.none_or, get_put]
+      by_cases h : c = c'
+      · subst h; simp
+      · have : ¬ c' = c := fun e => h e.symm
+        simp [h, this]
+
+/-- the (commit, note) pairs an update writes -/
+def Op.pairs : Op → List (Nat × Nat)
+  | .noteAdd _ _ c n => [(c, n)]
+  | .noteBatch _ _ es => es
+  | _ => []
+
+def Op.isNote : Op → Bool
+  | .noteAdd .. | .noteBatch .. => true
+  | _ => false
+
+theorem seq_notes_map (t : Nat) (m : List (Nat × Nat)) (ops : List (Pid × Op)) (hn : ∀ x ∈ ops, x.2.isNote = true) :
+    (seqRun (.notes t m) ops).map = putAll m (ops.flatMap (fun x => x.2.pairs)) := by
+  induction ops generalizing t m with
+  | nil => simp [seqRun, putAll, Val.map]
+  | cons x rest ih =>
+    obtain ⟨p, op⟩ := x
+    have hop := hn (p, op) (by simp)
+    have hrest : ∀ x ∈ rest, x.2.isNote = true := fun x hx => hn x (by simp [hx])
+    have pa : ∀ (a b : List (Nat × Nat)) (m : List (Nat × Nat)), putAll m (a ++ b) = putAll (putAll m a) b := by
+      intro a
+      induction a with
+      | nil => intro b m; rfl
+      | cons w a iha => intro b m; obtain ⟨c, n⟩ := w; simp [putAll, iha]
+    cases op with
+    | ckpt k id a e => simp [Op.isNote] at hop
+    | rw k ev => simp [Op.isNote] at hop
+    | noteAdd k id c n =>
+      rw [seqRun_cons]
+      have hs : (Op.noteAdd k id c n).seq (.notes t m) = .notes id (put m c n) := by
+        simp [Op.seq, Op.noEffect, Op.write, Val.map]
+      rw [hs, ih _ _ hrest]
+      simp [List.flatMap_cons, Op.pairs, putAll]
+    | noteBatch k id es =>
+      rw [seqRun_cons]
+      have hs : (Op.noteBatch k id es).seq (.notes t m) = .notes id (putAll m es) := by
+        simp [Op.seq, Op.noEffect, Op.write, Val.map, Val.tip]
+      rw [hs, ih _ _ hrest]
+      simp [List.flatMap_cons, Op.pairs, pa]
+
+/-! ### where the cells live -/
+
+theorem stripPrefix_append (p q : Path) : stripPrefix p (p ++ q) = some q := by
+  induction p with
+  | nil => rfl
+  | cons a p ih => simp [stripPrefix, ih]
+
+theorem aiDir_main (c : Path) : aiDir c c = c ++ [sAi] := by simp [aiDir]
+
+theorem aiDir_linked (c rel : Path) (h : rel ≠ []) :
+    aiDir (c ++ [sWorktrees] ++ rel) c = c ++ [sAi, sWorktrees] ++ rel := by
+  have hne : ¬ (c ++ [sWorktrees] ++ rel = c) := by
+    intro e
+    have := congrArg List.length e
+    simp at this
+  unfold aiDir
+  rw [if_neg hne, stripPrefix_append]
+  simp [h]
+
 end GitAi.Conc
